@@ -14,10 +14,16 @@
                            function of the REPORTED (raw) coefficients and intercept
      lsq_solver s          whatever s returns for a tall system satisfies the normal equations
      exact_spd_solver s    whatever s returns for a symmetric positive-definite system solves it
-     svd_postcondition     orthonormal U, V, thresholded singular values, U diag(s) V^T = A *)
+     svd_postcondition     orthonormal U, V, thresholded singular values, U diag(s) V^T = A
+   Extension (C07/ProofsOLSTotal.v, ProofsOLSGram.v, ProofsRidgeTotal.v, ProofsPredict.v):
+     ols_full_rank X       the columns of the augmented design [X 1] are linearly independent
+     aug_gram_pos_def X    the quadratic form of [X 1]^T [X 1] is positive definite (equivalent)
+     indep_cols m n A      the same for a function matrix of C01 (m rows, n columns)
+     col_sd X j            sqrt (sum_i (X_ij - mean_j)^2 / n), the population deviation of column j
+     predicts X' wm b yh   predict ROps X' wm b = Some yh, |yh| = nrows X', yh_i = sum_k X'_ik w_k + b *)
 From Coq Require Import List Arith Bool Reals Lra Lia.
 From SC Require Import Base.Num C01.Model C01.Proofs C01.Proofs_svd C03.ProofsBase
-     C07.Model C07.ProofsObj C07.ProofsFit C07.ProofsRidge C07.ProofsSolve C07.ProofsOLS C07.ProofsMain.
+     C07.Model C07.ProofsObj C07.ProofsFit C07.ProofsRidge C07.ProofsSolve C07.ProofsOLS C07.ProofsMain C07.ProofsOLSTotal C07.ProofsOLSGram C07.ProofsRidgeTotal C07.ProofsPredict.
 Import ListNotations.
 Open Scope R_scope.
 
@@ -58,6 +64,80 @@ Proof.
   intros eps fact X y wm b Hp Hwf Hnp Hfit.
   destruct (ols_normal_equations _ X y wm b Hwf Hnp (svd_lsq_solver eps fact Hp) Hfit) as (_ & _ & _ & H1 & H2 & _).
   split; assumption.
+Qed.
+
+(* ===================== OLS: totality, uniqueness, solver agreement ===================== *)
+(* Full column rank of the augmented design [X 1] (C07/ProofsOLSTotal.v):
+     ols_full_rank X      the columns of [X 1] are linearly independent: sum_k X_ik c_k + c0 = 0 for
+                          every row i only for c = 0, c0 = 0;
+     aug_gram_pos_def X   [X 1]^T [X 1] is positive definite, written as a quadratic form:
+                          (c, c0) <> 0  ->  0 < sum_i (sum_k X_ik c_k + c0)^2.
+   The two are equivalent; the first composes with C01's QR invariants (Q^T A = R, Q orthogonal),
+   the second is the hypothesis of C01's chol_spd_some. *)
+Theorem C07_ols_full_rank_iff_gram_pos_def : forall X : dm R, ols_full_rank X <-> aug_gram_pos_def X.
+Proof. exact ols_full_rank_iff_pos_def. Qed.
+(* the same hypothesis with the library's own operations: a = X.h_stack(ones), G = a^T a; then
+   "G is positive definite" (pos_def, the hypothesis of C01's chol_spd_some) <-> ols_full_rank X *)
+Theorem C07_ols_full_rank_iff_aug_gram_spd : forall (X a G : dm R), wfR X ->
+  D.h_stack ROps X (D.ones ROps (nrows X) 1) = Some a ->
+  D.matmul ROps (D.transpose ROps a) a = Some G ->
+  (pos_def G <-> ols_full_rank X).
+Proof. exact aug_gram_pos_def_iff. Qed.
+
+(* totality of the QR path: on a full-column-rank design with n > p rows the diagonal of R produced
+   by C01's qr_mut has no zero, QR::solve does not panic, and LinearRegression::fit RETURNS *)
+Theorem C07_ols_qr_returns : forall (X : dm R) (y : list R),
+  wfR X -> (ncols X < nrows X)%nat -> length y = nrows X -> ols_full_rank X ->
+  exists wm b, ols_fit ROps (qr_solve_mut ROps) X y = Some (wm, b).
+Proof. exact ols_qr_returns. Qed.
+(* ... and ONLY there: over the reals the QR fit returns exactly on full-column-rank designs (on a
+   rank-deficient one qr_mut leaves an exactly zero diagonal entry and QR::solve panics) *)
+Theorem C07_ols_qr_returns_iff_full_rank : forall (X : dm R) (y : list R),
+  wfR X -> (ncols X < nrows X)%nat -> length y = nrows X ->
+  ((exists wm b, ols_fit ROps (qr_solve_mut ROps) X y = Some (wm, b)) <-> ols_full_rank X).
+Proof. exact ols_qr_returns_iff. Qed.
+(* the solver-level fact behind it: qr_mut on independent columns gives a non-zero diagonal of R,
+   hence qr_solve_mut (= qr_mut().and_then(solve)) returns *)
+Theorem C07_qr_diagonal_nonzero : forall m n (A : @L.Mx R), (n <= m)%nat -> indep_cols m n A ->
+  forall k, (k < n)%nat -> snd (L.qr_mut ROps m n A) k <> 0.
+Proof. exact qr_tau_nonzero. Qed.
+(* the SVD path: SVD::solve has no panic of its own, so fit returns whenever the factorisation
+   routine returns on the augmented shape (no rank condition; that the sweeps converge is C01's gap) *)
+Theorem C07_ols_svd_returns : forall eps fact (X : dm R) (y : list R),
+  wfR X -> (ncols X < nrows X)%nat -> length y = nrows X ->
+  (forall A, exists st, fact (nrows X) (ncols X + 1)%nat A = Some st) ->
+  exists wm b, ols_fit ROps (svd_solve_with ROps fact eps) X y = Some (wm, b).
+Proof. exact ols_svd_returns. Qed.
+
+(* uniqueness: what fit returns (any least-squares solver) is the ONLY minimiser of |y - Xw' - b'|^2 *)
+Theorem C07_ols_unique_minimiser : forall solver (X : dm R) (y : list R) wm b,
+  wfR X -> (ncols X < nrows X)%nat -> ols_full_rank X -> lsq_solver solver ->
+  ols_fit ROps solver X y = Some (wm, b) ->
+  forall w' b', objective X y 0 w' b' <= objective X y 0 (colf wm) b ->
+    (forall k, (k < ncols X)%nat -> w' k = get wm k 0%nat) /\ b' = b.
+Proof. exact ols_unique_minimiser. Qed.
+
+(* "the QR and SVD solvers agree" (exact arithmetic): any two least-squares solvers return the same
+   coefficients and intercept on a full-column-rank design *)
+Theorem C07_ols_solvers_agree : forall s1 s2 (X : dm R) (y : list R) w1 b1 w2 b2,
+  wfR X -> (ncols X < nrows X)%nat -> ols_full_rank X -> lsq_solver s1 -> lsq_solver s2 ->
+  ols_fit ROps s1 X y = Some (w1, b1) -> ols_fit ROps s2 X y = Some (w2, b2) ->
+  (forall k, (k < ncols X)%nat -> get w1 k 0%nat = get w2 k 0%nat) /\ b1 = b2.
+Proof. exact ols_solvers_agree. Qed.
+(* ... instantiated: the QR fit exists, and whatever the SVD path returns (for EVERY factorisation
+   with the SVD's post-condition) equals it *)
+Theorem C07_ols_qr_svd_agree : forall eps fact (X : dm R) (y : list R),
+  svd_postcondition eps fact ->
+  wfR X -> (ncols X < nrows X)%nat -> length y = nrows X -> ols_full_rank X ->
+  exists wq bq, ols_fit ROps (qr_solve_mut ROps) X y = Some (wq, bq) /\
+    (forall w' b', objective X y 0 (colf wq) bq <= objective X y 0 w' b') /\
+    forall ws bs, ols_fit ROps (svd_solve_with ROps fact eps) X y = Some (ws, bs) ->
+      (forall k, (k < ncols X)%nat -> get ws k 0%nat = get wq k 0%nat) /\ bs = bq.
+Proof.
+  intros eps fact X y Hp Hwf Hnp Hy Hfr.
+  destruct (ols_qr_total_unique X y Hwf Hnp Hy Hfr) as [wq [bq [Hfit [Hmin [_ Hag]]]]].
+  exists wq, bq. split; [exact Hfit|]. split; [exact Hmin|].
+  intros ws bs Hs. exact (Hag _ ws bs (svd_lsq_solver eps fact Hp) Hs).
 Qed.
 
 (* ================================= ridge regression ================================= *)
@@ -123,6 +203,37 @@ Theorem C07_ridge_cholesky_returns : forall eps (X : dm R) (y : list R) alpha,
   wfR X -> 0 < alpha -> (ncols X < nrows X)%nat -> length y = nrows X ->
   exists wm b, ridge_fit ROps (cholesky_solve_mut ROps) eps X y alpha false = Some (wm, b).
 Proof. intros eps X y alpha H1 H2 H3 H4. exact (ridge_fit_raw_total _ eps X y alpha H1 H2 H3 H4 cholesky_total_spd). Qed.
+(* totality with normalize = true: when every column's population standard deviation
+   col_sd X j = sqrt (sum_i (X_ij - mean_j)^2 / n) is at least epsilon (the complement of the code's
+   own Err test; a non-constant column has col_sd > 0), rescale_x returns, the standardised Gram
+   matrix Z^T Z + alpha I handed to the solver is symmetric positive definite, and the Cholesky fit
+   returns; a column with col_sd < epsilon (e.g. a constant one) makes fit return Err *)
+Theorem C07_ridge_standardised_system_spd : forall eps (X Z : dm R) mu sd (y : list R) alpha,
+  0 < eps -> wfR X -> 0 < alpha -> length y = nrows X ->
+  rescale_x ROps eps X = Some (Z, mu, sd) ->
+  exists a rhs, ridge_system ROps (ncols X) Z (col_vec ROps y) alpha = Some (a, rhs) /\
+    square_system a rhs /\ sym a /\ pos_def a /\ nrows a = ncols X /\
+    (forall r c, (r < ncols X)%nat -> (c < ncols X)%nat ->
+       get a r c = rsum (nrows X) (fun i => get Z i r * get Z i c) + (if Nat.eqb r c then alpha else 0)).
+Proof. exact ridge_norm_system_spd. Qed.
+Theorem C07_ridge_cholesky_returns_normalized : forall eps (X : dm R) (y : list R) alpha,
+  0 < eps -> wfR X -> 0 < alpha -> (ncols X < nrows X)%nat -> length y = nrows X ->
+  (forall j, (j < ncols X)%nat -> eps <= col_sd X j) ->
+  exists wm b, ridge_fit ROps (cholesky_solve_mut ROps) eps X y alpha true = Some (wm, b).
+Proof. exact ridge_cholesky_norm_returns. Qed.
+(* the same for every solver that is total and exact on SPD systems, both normalisation settings *)
+Theorem C07_ridge_fit_returns : forall solver eps (X : dm R) (y : list R) alpha normalize,
+  0 < eps -> wfR X -> 0 < alpha -> (ncols X < nrows X)%nat -> length y = nrows X ->
+  (normalize = true -> forall j, (j < ncols X)%nat -> eps <= col_sd X j) ->
+  total_spd_solver solver -> exact_spd_solver solver ->
+  exists wm b, ridge_fit ROps solver eps X y alpha normalize = Some (wm, b).
+Proof. exact ridge_fit_total. Qed.
+Theorem C07_ridge_nonconstant_column_sd_pos : forall (X : dm R) j, (0 < nrows X)%nat ->
+  (exists i, (i < nrows X)%nat /\ get X i j <> col_mu X j) -> 0 < col_sd X j.
+Proof. exact col_sd_pos. Qed.
+Theorem C07_ridge_small_deviation_err : forall solver eps (X : dm R) (y : list R) alpha j,
+  (j < ncols X)%nat -> col_sd X j < eps -> ridge_fit ROps solver eps X y alpha true = None.
+Proof. exact ridge_fit_norm_err. Qed.
 (* the SVD path on the ridge system, for every factorisation with the SVD's post-condition *)
 Theorem C07_svd_solver_exact : forall eps fact, svd_postcondition eps fact ->
   exact_spd_solver (svd_solve_with ROps fact eps).
@@ -149,6 +260,51 @@ Proof. exact predict_spec. Qed.
 Theorem C07_predict_shape_mismatch : forall (X w : dm R) (b : R), ncols X <> nrows w ->
   predict ROps X w b = None.
 Proof. exact predict_none. Qed.
+
+(* ============================ fit and predict composed ============================ *)
+(* predicts X' wm b yh (C07/ProofsPredict.v):  predict ROps X' wm b = Some yh, one value per row of
+   X', the i-th being sum_k X'_ik w_k + b.  For the values fit RETURNS, predict returns on every
+   matrix with the training number of columns, and the clauses of the property hold verbatim for
+   y - predict(X) on the training matrix. *)
+Theorem C07_ols_fit_predict : forall solver (X : dm R) (y : list R) wm b,
+  wfR X -> (ncols X < nrows X)%nat -> lsq_solver solver ->
+  ols_fit ROps solver X y = Some (wm, b) ->
+  (forall X', ncols X' = ncols X -> exists yh, predicts X' wm b yh) /\
+  exists yh, predicts X wm b yh /\ length yh = length y /\
+    (forall j, (j < ncols X)%nat -> rsum (nrows X) (fun i => get X i j * (nth i y 0 - nth i yh 0)) = 0) /\
+    rsum (nrows X) (fun i => nth i y 0 - nth i yh 0) = 0.
+Proof. exact ols_fit_predict. Qed.
+Theorem C07_ridge_fit_predict_raw : forall solver eps (X : dm R) (y : list R) alpha wm b,
+  wfR X -> 0 < alpha -> exact_spd_solver solver ->
+  ridge_fit ROps solver eps X y alpha false = Some (wm, b) ->
+  (forall X', ncols X' = ncols X -> exists yh, predicts X' wm b yh) /\
+  exists yh, predicts X wm b yh /\ b = 0 /\
+    forall j, (j < ncols X)%nat ->
+      alpha * get wm j 0%nat - rsum (nrows X) (fun i => get X i j * (nth i y 0 - nth i yh 0)) = 0.
+Proof. exact ridge_fit_predict_raw. Qed.
+Theorem C07_ridge_fit_predict_normalized : forall solver eps (X : dm R) (y : list R) alpha wm b,
+  0 < eps -> wfR X -> 0 < alpha -> exact_spd_solver solver ->
+  ridge_fit ROps solver eps X y alpha true = Some (wm, b) ->
+  (forall X', ncols X' = ncols X -> exists yh, predicts X' wm b yh) /\
+  exists yh Z mu sd, predicts X wm b yh /\ rescale_x ROps eps X = Some (Z, mu, sd) /\
+    (forall j, (j < ncols X)%nat ->
+       alpha * (get wm j 0%nat * nth j sd 0) - rsum (nrows X) (fun i => get Z i j * (nth i y 0 - nth i yh 0)) = 0) /\
+    rsum (nrows X) (fun i => nth i y 0 - nth i yh 0) = 0.
+Proof. exact ridge_fit_predict_norm. Qed.
+(* end to end, nothing left to assume about a solver or about fit returning: QR least squares on a
+   full-column-rank design, Cholesky ridge for both normalisation settings *)
+Theorem C07_ols_qr_fit_predict_total : forall (X : dm R) (y : list R),
+  wfR X -> (ncols X < nrows X)%nat -> length y = nrows X -> ols_full_rank X ->
+  exists wm b yh, ols_fit ROps (qr_solve_mut ROps) X y = Some (wm, b) /\ predicts X wm b yh /\
+    (forall j, (j < ncols X)%nat -> rsum (nrows X) (fun i => get X i j * (nth i y 0 - nth i yh 0)) = 0) /\
+    rsum (nrows X) (fun i => nth i y 0 - nth i yh 0) = 0.
+Proof. exact ols_qr_fit_predict_total. Qed.
+Theorem C07_ridge_cholesky_fit_predict_total : forall eps (X : dm R) (y : list R) alpha normalize,
+  0 < eps -> wfR X -> 0 < alpha -> (ncols X < nrows X)%nat -> length y = nrows X ->
+  (normalize = true -> forall j, (j < ncols X)%nat -> eps <= col_sd X j) ->
+  exists wm b yh, ridge_fit ROps (cholesky_solve_mut ROps) eps X y alpha normalize = Some (wm, b) /\
+    predicts X wm b yh.
+Proof. exact ridge_cholesky_fit_predict_total. Qed.
 
 (* ============================ the stationarity validator ============================ *)
 (* check_stationary (run inside Coq on the implementation's coefficients by the correspondence
@@ -189,3 +345,55 @@ Qed.
 Example C07_lsq_solver_instances : lsq_solver (qr_solve_mut ROps) /\
   (forall eps fact, svd_postcondition eps fact -> lsq_solver (svd_solve_with ROps fact eps)).
 Proof. split; [exact qr_lsq_solver | exact svd_lsq_solver]. Qed.
+
+(* a full-column-rank design: X = (1, 2, 4)^T, so [X 1] has independent columns; by
+   C07_ols_qr_returns (not by evaluating the Householder steps over R) the QR fit returns *)
+Example C07_ols_full_rank_instance : ols_full_rank ex_X.
+Proof.
+  intros c c0 H.
+  pose proof (H 0%nat ltac:(cbn; lia)) as H0. pose proof (H 1%nat ltac:(cbn; lia)) as H1.
+  unfold rsum in H0, H1. cbn in H0, H1.
+  assert (E : c 0%nat = 0) by lra.
+  split; [|lra]. intros k Hk. cbn in Hk. replace k with 0%nat by lia. exact E.
+Qed.
+Example C07_ols_instance :
+  wfR ex_X /\ (ncols ex_X < nrows ex_X)%nat /\ ols_full_rank ex_X /\
+  exists wm b, ols_fit ROps (qr_solve_mut ROps) ex_X [1; 0; 2] = Some (wm, b).
+Proof.
+  assert (Hwf : wfR ex_X) by reflexivity.
+  split; [exact Hwf|]. split; [cbn; lia|]. split; [exact C07_ols_full_rank_instance|].
+  apply C07_ols_qr_returns; [exact Hwf | cbn; lia | reflexivity | exact C07_ols_full_rank_instance].
+Qed.
+(* normalize = true on the same design: col_sd = sqrt (14/9) >= 1 = eps *)
+Example C07_ridge_normalized_instance :
+  (forall j, (j < ncols ex_X)%nat -> 1 <= col_sd ex_X j) /\
+  exists wm b, ridge_fit ROps (cholesky_solve_mut ROps) 1 ex_X [1; 0; 2] 1 true = Some (wm, b).
+Proof.
+  assert (Hsd : forall j, (j < ncols ex_X)%nat -> 1 <= col_sd ex_X j).
+  { intros j Hj. cbn in Hj. replace j with 0%nat by lia.
+    rewrite <- sqrt_1 at 1. unfold col_sd. apply sqrt_le_1_alt.
+    unfold col_mu, rsum. cbn. lra. }
+  split; [exact Hsd|].
+  apply C07_ridge_cholesky_returns_normalized; [lra | reflexivity | lra | cbn; lia | reflexivity | exact Hsd].
+Qed.
+(* fit and predict composed on the same design *)
+Example C07_fit_predict_instance :
+  (exists wm b yh, ols_fit ROps (qr_solve_mut ROps) ex_X [1; 0; 2] = Some (wm, b) /\ predicts ex_X wm b yh) /\
+  (forall normalize, exists wm b yh,
+     ridge_fit ROps (cholesky_solve_mut ROps) 1 ex_X [1; 0; 2] 1 normalize = Some (wm, b) /\ predicts ex_X wm b yh).
+Proof.
+  assert (Hwf : wfR ex_X) by reflexivity. split.
+  - destruct (C07_ols_qr_fit_predict_total ex_X [1; 0; 2] Hwf ltac:(cbn; lia) eq_refl C07_ols_full_rank_instance)
+      as [wm [b [yh [H1 [H2 _]]]]]. exists wm, b, yh. split; assumption.
+  - intros normalize. apply C07_ridge_cholesky_fit_predict_total; [lra | exact Hwf | lra | cbn; lia | reflexivity |].
+    intros _. exact (proj1 C07_ridge_normalized_instance).
+Qed.
+Example C07_aug_gram_instance : exists a G,
+  D.h_stack ROps ex_X (D.ones ROps (nrows ex_X) 1) = Some a /\
+  D.matmul ROps (D.transpose ROps a) a = Some G /\ pos_def G.
+Proof.
+  assert (Hwf : wfR ex_X) by reflexivity.
+  destruct (aug_gram_exists ex_X Hwf) as [a [G [Ha [HG _]]]]. exists a, G.
+  split; [exact Ha|]. split; [exact HG|].
+  apply (proj2 (C07_ols_full_rank_iff_aug_gram_spd ex_X a G Hwf Ha HG)). exact C07_ols_full_rank_instance.
+Qed.
